@@ -94,7 +94,7 @@ def scripts_for(pid, tier, seed, fx):
             rnd([f], 150 if thorough else 4, 80 if thorough else 60)
     elif pid == "C11":
         for _, p in KINDS:
-            for f in (p + "_inv", p + "_inv_lru2", p + "_inv_cif"):
+            for f in (p + "_inv", p + "_inv_lru2", p + "_inv_cif", p + "_inv_lfu2", p + "_inv_arc2", p + "_inv_tlru3_ttl3", p + "_inv_random2"):
                 for s in seqs([(1, True), (1, False), (2, True), (2, False)], 5 if thorough else 4):
                     add([f], [{"op": "call", "f": f, "k": k, "inv": i, "cif": True} for (k, i) in s]
                         + [{"op": "call", "f": f, "k": 1, "inv": False}, {"op": "call", "f": f, "k": 2, "inv": False}])
